@@ -102,6 +102,10 @@ func (e *Env) RunIn(dir string, extraEnv []string, stdin []byte, timeout time.Du
 	cmd.Args[0] = name
 	cmd.Dir = dir
 	cmd.Env = append(e.Environ(), extraEnv...)
+	if dir != "" {
+		// as a shell would: the logical path of the working directory (matters when it goes through a symlink)
+		cmd.Env = append(cmd.Env, "PWD="+dir)
+	}
 	var so, se bytes.Buffer
 	cmd.Stdout, cmd.Stderr = &so, &se
 	if stdin != nil {
